@@ -76,6 +76,7 @@ pub fn gen_bigint(rng: &mut Rng) -> BigInt {
         2 => BigInt::Int(int_of(*rng.pick(&[0i128, 1, -1, 23, 24, -24, -25, 255, 256, -256, -257,
             i64::MAX as i128, i64::MIN as i128, i64::MAX as i128 + 1, i64::MIN as i128 - 1,
             u64::MAX as i128, -(1i128 << 64), -(1i128 << 64) + 1]))),
+        3 => { let neg = rng.bool(); repr(rng, neg, 0) }
         _ => { let m = gen_mag(rng); let neg = rng.bool(); repr(rng, neg, m) }
     }
 }
